@@ -162,6 +162,17 @@ def _frames(exc: BaseException) -> List[tuple]:
     return out
 
 
+def guard_harness(exc: BaseException) -> None:
+    """Called first in every `except Exception as exc:` of a check that turns an exception into an observation or a
+    violation: an exception whose innermost frame (among /verif and netqasm frames) is this machinery's own is a harness bug
+    or a seam that moved - it must end the run as BROKEN-CHECK, never be mistaken for the implementation's behaviour."""
+    fr = _frames(exc)
+    if fr and fr[-1][0] == "verif" and not isinstance(exc, CheckBroken):
+        raise CheckBroken(f"the harness itself raised {type(exc).__name__}: {str(exc)[:200]} in {fr[-1][1]}:{fr[-1][2]}") from exc
+    if fr and fr[-1][0] == "netqasm" and isinstance(exc, (AttributeError, TypeError)) and _names_harness_class(str(exc)):
+        raise CheckBroken(f"the implementation tripped over a harness object: {type(exc).__name__}: {str(exc)[:200]}") from exc
+
+
 def implementation_violation(exc: BaseException, origin: str, case: Any) -> Dict[str, Any]:
     text = str(exc).splitlines()[0][:200] if str(exc) else ""
     return {"fingerprint": f"implementation-raises/{type(exc).__name__}/{origin}",
